@@ -19,12 +19,46 @@ type CodeWriter struct {
 	// semiPos is the place in the output where it would have been written
 	semiOmitted bool
 	semiPos     int
+
+	// mapping requested by AddMapping / AddNamedMapping; it is recorded when the
+	// token it belongs to is written, i.e. after pending layout has been flushed
+	pendingMapping *pendingMapping
+}
+
+type pendingMapping struct {
+	line, column int
+	name         string
+	named        bool
+}
+
+// writeRaw writes layout text (whitespace, comments) and keeps the source
+// mapper's generated position in step with the output.
+func (cw *CodeWriter) writeRaw(s string) {
+	cw.Builder.WriteString(s)
+	if cw.Mapper != nil {
+		cw.Mapper.AdvanceString(s)
+	}
+}
+
+// recordMapping records the requested mapping at the current generated position.
+func (cw *CodeWriter) recordMapping() {
+	m := cw.pendingMapping
+	if m == nil || cw.Mapper == nil {
+		return
+	}
+	cw.pendingMapping = nil
+	if m.named {
+		cw.Mapper.AddNamedMapping(m.line, m.column, m.name)
+	} else {
+		cw.Mapper.AddMapping(m.line, m.column)
+	}
 }
 
 // WriteString writes a string to the buffer
 func (cw *CodeWriter) WriteString(s string) {
 	cw.flushPending()
 	cw.restoreSemi(s)
+	cw.recordMapping()
 	cw.Builder.WriteString(s)
 	if cw.Mapper == nil {
 		return
@@ -36,6 +70,7 @@ func (cw *CodeWriter) WriteString(s string) {
 func (cw *CodeWriter) WriteRune(r rune) {
 	cw.flushPending()
 	cw.restoreSemi(string(r))
+	cw.recordMapping()
 	cw.Builder.WriteRune(r)
 	if cw.Mapper == nil {
 		return
